@@ -326,6 +326,12 @@ pub struct Buffer<T> {
 impl<T> Buffer<T> {
     /// Create a new Buffer.
     pub fn new(size: usize) -> Result<Self> {
+        let member_size = std::mem::size_of::<T>();
+        if member_size == 0 || size % member_size != 0 {
+            return Err(Error::msg(format!(
+                "buffer size {size} is not a multiple of the element size {member_size}"
+            )));
+        }
         Ok(Self {
             state: Arc::new((
                 Mutex::new(BufferState {
